@@ -65,7 +65,7 @@ def history(ck):
         if ck.rng.random() < 0.6:
             info["kw"]["scheduler"] = ck.rng.choice(["ltf", "lpsd"]); info["kw"]["olap"] = ck.rng.choice([0.5, "default", 0.3])
         data = np.vstack([info["x"], info["y"]]) if info["cross"] else info["x"]
-        mk = lambda: SpectrumAnalyzer(data.copy(), info["fs"], **info["kw"])
+        mk = lambda: SpectrumAnalyzer(data.copy(), info["fs"], **attrs.resolve_kw(info["kw"]))
         an = mk()
         ops = [ck.rng.choice(["plan", "compute", "single", "single"]) for _ in range(6)]
         plan_copy = None
